@@ -124,6 +124,18 @@ Theorem c20_status_exit_other_failure :
 Proof. exact status_exit_other_failure. Qed.
 Print Assumptions c20_status_exit_other_failure.
 
+Theorem c20_unreachable_nonzero :
+  forall url k first o, no_server first = true ->
+  let s := guarded (with_upcheck url k) (init (first :: o)) in
+  ex s <> 0 /\ (exists t, out s = [LText t]) /\ calls s = [("getVersion", [])].
+Proof. exact unreachable_nonzero. Qed.
+Print Assumptions c20_unreachable_nonzero.
+
+(* the calls of c20_one_line_per_target are the ones the specification names *)
+Theorem c20_calls_meet_spec : forall a sig n, call_for a sig n = spec_call a sig n.
+Proof. exact call_for_spec. Qed.
+Print Assumptions c20_calls_meet_spec.
+
 (* a fault outside the success class or a transport error for any target: non-zero
    status and an error line *)
 Theorem c20_never_silent :
